@@ -213,6 +213,92 @@ func checkUser(t hx.TB, test, where, ctx string, u user) {
 			hx.Fail(t, test, "ll", ctx, "%s (%T): writing through slot %d changed more than that operand\nbefore: %s\nafter:  %s", where, u, k, p0, p1)
 		}
 	}
+	checkAfterRelisting(t, test, where, ctx, u)
+}
+
+// relistOperands replaces, through the exported fields of u, every list the user holds by an equal list in
+// other memory: helper records (*ir.Case, *ir.Incoming, *ir.Clause, *ir.OperandBundle) by copies, slices
+// of values by copies of the slice. The instruction means what it meant before; it returns how many lists
+// were replaced. A client that rebuilds the cases of a switch or the incoming list of a phi does this.
+func relistOperands(u any) int {
+	n := 0
+	var rec func(v reflect.Value, depth int)
+	rec = func(v reflect.Value, depth int) {
+		t := v.Type()
+		for i := 0; i < t.NumField(); i++ {
+			f := t.Field(i)
+			if f.PkgPath != "" || f.Type.Kind() != reflect.Slice {
+				continue
+			}
+			switch f.Name {
+			case "Typ", "Successors", "Metadata", "LocalIdent", "Parent":
+				continue
+			}
+			fv := v.Field(i)
+			if fv.Len() == 0 || !fv.CanSet() {
+				continue
+			}
+			et := f.Type.Elem()
+			valueList := isValueIface(et) || et.Kind() == reflect.Ptr && et.Implements(valueT)
+			recordList := et.Kind() == reflect.Ptr && et.Elem().Kind() == reflect.Struct && helperRecord(et.Elem())
+			if !valueList && !(recordList && depth < 2) {
+				continue
+			}
+			nl := reflect.MakeSlice(f.Type, fv.Len(), fv.Len())
+			for k := 0; k < fv.Len(); k++ {
+				e := fv.Index(k)
+				if recordList && !e.IsNil() {
+					c := reflect.New(et.Elem())
+					c.Elem().Set(e.Elem())
+					rec(c.Elem(), depth+1)
+					e = c
+				}
+				nl.Index(k).Set(e)
+			}
+			fv.Set(nl)
+			n++
+		}
+	}
+	rv := reflect.ValueOf(u)
+	if rv.Kind() == reflect.Ptr && rv.Elem().Kind() == reflect.Struct {
+		rec(rv.Elem(), 0)
+	}
+	return n
+}
+
+// checkAfterRelisting: the operand view follows the fields. After the lists of u were replaced by equal
+// lists in other memory (the view had been handed out before), Operands() must expose the slots of the
+// lists the instruction holds *now*, and the instruction must print as before.
+func checkAfterRelisting(t hx.TB, test, where, ctx string, u user) {
+	var p0 string
+	if p := lx.Guard(func() { u.Operands(); p0 = u.LLString() }); p != nil {
+		return // judged by checkUser
+	}
+	if relistOperands(u) == 0 {
+		return
+	}
+	hx.Hist("relisted_users")
+	var ops []*value.Value
+	var p1 string
+	if p := lx.Guard(func() { ops = u.Operands(); p1 = u.LLString() }); p != nil {
+		hx.Fail(t, test, "ll", ctx, "%s (%T): after the operand lists were replaced by equal lists Operands()/LLString() panics: %s", where, u, p)
+	}
+	if p1 != p0 {
+		hx.Fail(t, test, "ll", ctx, "%s (%T): replacing the operand lists by equal lists changed the printed instruction\nbefore: %s\nafter:  %s", where, u, p0, p1)
+	}
+	want := valueFields(u)
+	got := map[uintptr]bool{}
+	for _, o := range ops {
+		got[reflect.ValueOf(o).Pointer()] = true
+		if _, ok := want[reflect.ValueOf(o).Pointer()]; !ok {
+			hx.Fail(t, test, "ll", ctx, "%s (%T): after the operand lists were replaced by equal lists (same lengths), Operands() still returns a slot of a list the instruction no longer holds: a write through it would change nothing in `%s`", where, u, p1)
+		}
+	}
+	for addr, name := range want {
+		if !strings.HasSuffix(name, "(concrete)") && !got[addr] {
+			hx.Fail(t, test, "ll", ctx, "%s (%T): after the operand lists were replaced by equal lists, Operands() exposes no slot for the value field %s of `%s`", where, u, name, p1)
+		}
+	}
 }
 
 // slotsDisjoint: no operand slot belongs to two operands, neither of one instruction nor of two
